@@ -4,7 +4,7 @@ from engine.facts import strip_tmpl
 
 LEVEL = "other"
 MIN_OBLIGATIONS = 18
-TECHNIQUE = "def-use history of the rule text (escape -> wildcard -> anchor), CFG rules on the evaluation loop, truth-table evaluation of the rule predicate, writer/reader table agreement (rule regex groups vs stringToQtMsgType keys); evaluation by cases (engine/conc.py) of the type condition over suffix x message type x match through parseRules' stores and Rule::matches; prefix-and-suffix short-cut rule (needs a length test); type-suffix vocabulary rule"
+TECHNIQUE = "def-use history of the rule text (escape -> wildcard -> anchor), CFG rules on the evaluation loop, truth-table evaluation of the rule predicate, writer/reader table agreement (rule regex groups vs stringToQtMsgType keys); evaluation by cases (engine/conc.py) of the type condition over suffix x message type x match through parseRules' stores and Rule::matches; prefix-and-suffix short-cut rule (needs a length test); type-suffix vocabulary rule; exact end anchor and dot-matches-everything of the category pattern; edits of the category text around the escape; rule text cut before parsing; engine failure read as no-match (open finding)"
 LEVEL_TEXT = ("Decides the structural clauses of ordered rule evaluation for all rule lists: text flows escape -> '\\\\*'->'.*' -> '^..$'; filter() starts from pass, visits every rule forward "
               "with no early exit and lets each match overwrite the verdict; a rule matches iff regex match AND (untyped OR type equal) — all 8 truth-table rows; the capture groups "
               "of the line grammar agree with how they are consumed; ';' and newline separate rules and a malformed line only skips itself. Verdict equality over all strings is not decided.")
@@ -410,6 +410,15 @@ def truth_table(ck, mt):
     m = skip_copies(R[0].get("obj"))
     okm = is_call(m, "QRegularExpression::match") and is_this_field(m.get("obj"), CF + "::Rule::category") and is_ref_to(m["args"][0], mt.params[0]["decl"]) and all(x.get("k") == "defaultarg" for x in m["args"][1:])
     ck.ob("C15-O3", sitestr(mt, m), okm, "the category pattern is matched against the category argument with default options" if okm else "unexpected match call %s" % describe(m), key="Rule::matches|match-call")
+    # --- O10: the engine can FAIL (PCRE's match limit on a chain of wildcards against a long category with repeated characters; a pattern over the
+    # 64K limit that does not compile): hasMatch() is false then, and the rule is taken not to match although its text does
+    ck.rule("C15-O10", "a failure of the matching engine is not read as 'the rule does not match': the category match is not done by a backtracking engine, or its error state (isValid / match error) decides separately")
+    checks = [x for f_ in (mt, F.fn(CF + "::parseRules"), F.fn(CF + "::filter")) for x in f_.calls() if strip_tmpl(x.get("callee") or "") in
+              ("QRegularExpression::isValid", "QRegularExpressionMatch::isValid", "QRegularExpression::errorString", "QRegularExpression::patternErrorOffset")]
+    ck.ob("C15-O10", sitestr(mt, R[0]), bool(checks) if okm else None,
+          "the validity of the pattern / of the match is looked at" if checks else
+          "Rule::matches reads QRegularExpressionMatch::hasMatch() of a pattern translated from wildcards ('.*') and nothing looks at the engine's error state: when PCRE gives up "
+          "(`*x*x*x*x*x*x*x*x*yz*=false` against xxxxxxxxyz + 40 x) or the pattern does not compile (a 70 000-character rule) the rule 'does not match' and the message passes", key="Rule::matches|engine-failure-is-no-match")
     rec = F.records.get(CF + "::Rule") or {}
     if not {"type", "typeMatch"} <= {f_.get("name") for f_ in rec.get("fields", [])}:
         return    # no (type, typeMatch) pair: the verdict table of type_table() decides the type condition
